@@ -189,6 +189,13 @@ class Prop:
             for perm in self._interleavings([3, 4]):
                 out.append(dict(pols=[], lims=[[1, lim]], progs=[[('sub', 0)], [('ins', K(1, 0), 1), ('ins', K(1, 1), 2), ('ins', K(1, 0, 1), 3)]],
                                 sched=[1, 1] + list(perm), cls='prefix_limit_%d:race' % lim))
+        # a session back after a graceful restart (fresh prefix counter) withdraws a path retained from the
+        # previous session: Table::remove decrements the counter below zero (wraps), the next new prefix is refused
+        for lim in (1, 2):
+            pre = [('ins', K(1, 0), 1), ('grdown', 1)]
+            for perm in self._interleavings([3, 4]):
+                out.append(dict(pols=[], lims=[[1, lim]], progs=[[('sub', 0)], pre + [('rem', K(1, 0)), ('ins', K(1, 1), 2)]],
+                                sched=[1] * 6 + list(perm), cls='prefix_limit_%d:withdraw_retained_after_gr' % lim))
         return out
 
     # ---- generation
